@@ -1012,8 +1012,14 @@ static size_t LZ4F_compressUpdateImpl(LZ4F_cctx* cctxPtr,
     /* flush currently written block, to continue with new block compression */
     if (cctxPtr->blockCompressMode != blockCompression) {
         bytesWritten = LZ4F_flush(cctxPtr, dstBuffer, dstCapacity, compressOptionsPtr);
+        FORWARD_IF_ERROR(bytesWritten);
         dstPtr += bytesWritten;
         cctxPtr->blockCompressMode = blockCompression;
+        /* the flushed block used part of dstBuffer : the remaining space must still cover this update */
+        if (dstCapacity - bytesWritten < LZ4F_compressBound_internal(srcSize, &(cctxPtr->prefs), cctxPtr->tmpInSize))
+            RETURN_ERROR(dstMaxSize_tooSmall);
+        if (blockCompression == LZ4B_UNCOMPRESSED && dstCapacity - bytesWritten < srcSize)
+            RETURN_ERROR(dstMaxSize_tooSmall);
     }
 
     if (compressOptionsPtr == NULL) compressOptionsPtr = &k_cOptionsNull;
